@@ -24,8 +24,19 @@ where
   | ")" :: r, acc => some (acc.reverse, r)
   | ts, acc => do let (c, r) ← parseD ts; kids r (c :: acc)
 
+/-- all subtrees in pre-order (the tree itself first) -/
+partial def subtrees : DTree → List DTree
+| .node n b d cs => .node n b d cs :: (cs.map subtrees).flatten
+
 def step (t : DTree) (line : String) : List String :=
   match tokens line with
+  | ["textsub", k, ind] =>     -- text rendering of the k-th behaviour in pre-order, i.e. of a subtree still attached
+      match k.toNat?, ind.toNat? with
+      | some k, some i =>
+          match (subtrees t)[k]? with
+          | some sub => ["X " ++ String.intercalate " " ((DTree.textLines i 0 sub).map (fun (n, nm) => s!"{n}:{encName nm}"))]
+          | none => ["X"]
+      | _, _ => ["bad-op"]
   | ["text", ind] =>
       match ind.toNat? with
       | some i => ["X " ++ String.intercalate " " ((DTree.textLines i 0 t).map (fun (n, nm) => s!"{n}:{encName nm}"))]
